@@ -3,4 +3,4 @@ import broker
 
 
 def run(res, tier, seed, replay):
-    return broker.run_property(res, "C06", tier, seed, replay, ["C06"])
+    return broker.run_property(res, "C06", tier, seed, replay, ["C06", "C06sys"])
